@@ -264,15 +264,17 @@ class SimConsole:
             s["method"] = c["method"]
         elif c["method"] == "change":
             s["method"] = "percent" if s["method"] == "temperature" else "temperature"
-        # a console that is told to set a value of one kind controls the zone by that kind from then on
-        # (assumption of the environment model; AT4 clients say so explicitly, AT5 clients leave it to the console)
+        # AirTouch 5 has no control-method field: a console told to set a value of one kind controls the zone by
+        # that kind from then on.  AirTouch 4 has the field, and its "other" codes are documented as "keep": the
+        # value is stored and the method stays what it is unless the frame says otherwise.
+        implied = self.gen == 5
         if c["setting"] == "percent":
             s["percent"] = c["value"]
-            if c["method"] == at4.KEEP:
+            if c["method"] == at4.KEEP and implied:
                 s["method"] = "percent"
         elif c["setting"] == "setpoint":
             s["setpoint"] = c["value"]
-            if c["method"] == at4.KEEP:
+            if c["method"] == at4.KEEP and implied:
                 s["method"] = "temperature"
         elif c["setting"] in ("inc", "dec"):
             d = 1 if c["setting"] == "inc" else -1
